@@ -67,6 +67,12 @@ def intersect_2d_lines(p0, q0, p1, q1):
     a = np.array([lhs0, lhs1])
     b = np.array([rhs0, rhs1])
 
+    # Parallel lines have a singular matrix. Test the determinant directly,
+    # since after rounding in its factorization `np.linalg.solve()` does not
+    # always notice.
+    if a[0][0] * a[1][1] - a[0][1] * a[1][0] == 0:
+        return None
+
     try:
         return np.linalg.solve(a, b)
     except np.linalg.LinAlgError:
